@@ -290,7 +290,19 @@ func broken(req []byte, p Params) (out string) {
 				}
 			}
 		}
-		if variants == 1 && exact != nil {
+		// (the same inside the key: a member such as "Y" next to or instead of "y" is bound to the model's field by a
+		// reader that folds case - which of the two is meant is the model's call, see the twin findings of C08)
+		plainKey := exact != nil && exact.Kind == refjcs.Object
+		if plainKey {
+			for _, km := range exact.Obj {
+				for _, f := range []string{"kty", "crv", "x", "y", "nonce"} {
+					if km.Name != f && strings.EqualFold(km.Name, f) {
+						plainKey = false
+					}
+				}
+			}
+		}
+		if variants == 1 && plainKey {
 			if canon, err := refjcs.Canonical(exact); err != nil || asm.Multihash(code, canon) != rv {
 				return "reveal value is not the hash of the signing key as it stands in the signed data"
 			}
